@@ -569,8 +569,15 @@ def from_xsd(value: str, type_: Type[AnyXSDType]) -> AnyXSDType:  # workaround. 
     elif type_ is Time:
         return _parse_xsd_time(value)
     elif type_ is Base64Binary:
+        # XSD whitespace may occur anywhere in a base64Binary literal (whiteSpace facet 'collapse' + optional blanks)
+        value = value.translate({0x20: None, 0x9: None, 0xA: None, 0xD: None})
+        if not BASE64_RE.match(value):
+            raise ValueError("Value is not a valid XSD base64Binary string")
         return Base64Binary(base64.b64decode(value.encode()))
     elif type_ is HexBinary:
+        value = value.strip(" \t\n\r")
+        if not HEXBINARY_RE.match(value):
+            raise ValueError("Value is not a valid XSD hexBinary string")
         return HexBinary(bytes.fromhex(value))
     elif type_ is GYear:
         return _parse_xsd_gyear(value)
@@ -589,6 +596,8 @@ def from_xsd(value: str, type_: Type[AnyXSDType]) -> AnyXSDType:  # workaround. 
 INTEGER_RE = re.compile(r'^[ \t\n\r]*[+\-]?[0-9]+[ \t\n\r]*$')
 FLOAT_RE = re.compile(r'^[ \t\n\r]*([+\-]?([0-9]+(\.[0-9]*)?|\.[0-9]+)([Ee][+\-]?[0-9]+)?|[+\-]?INF|NaN)[ \t\n\r]*$')
 DECIMAL_RE = re.compile(r'^[ \t\n\r]*[+\-]?([0-9]+(\.[0-9]*)?|\.[0-9]+)[ \t\n\r]*$')
+BASE64_RE = re.compile(r'^([A-Za-z0-9+/]{4})*([A-Za-z0-9+/]{2}[AEIMQUYcgkosw048]=|[A-Za-z0-9+/][AQgw]==)?$')
+HEXBINARY_RE = re.compile(r'^([0-9a-fA-F]{2})*$')
 DURATION_RE = re.compile(r'^(-?)P(\d+Y)?(\d+M)?(\d+D)?(T(\d+H)?(\d+M)?((\d+)(\.\d+)?S)?)?$')
 DATETIME_RE = re.compile(r'^(-?)(\d\d\d\d)-(\d\d)-(\d\d)T(\d\d):(\d\d):(\d\d)(\.\d+)?([+\-](\d\d):(\d\d)|Z)?$')
 TIME_RE = re.compile(r'^(\d\d):(\d\d):(\d\d)(\.\d+)?([+\-](\d\d):(\d\d)|Z)?$')
